@@ -39,6 +39,14 @@ fn cross(ctx: &Ctx, rep: &mut Report, id: usize, n: usize, m: usize, cp: usize, 
     let ext = 1 + (id % 6);
     let cfg = Cfg::new(n, m, cp, ext);
     let case = Case::random(cfg, VALUE_CLASSES[id % 6], PROMISE_CLASSES[id % 5], true, &mut rng);
+    if let Err(e) = RangeStatement::init(case.params(), case.commitments.clone(), case.promises.clone(), case.seed) {
+        rep.violation(
+            &format!("C12 statement-refused cap{}m", if cp > m { ">" } else { "=" }),
+            &format!("a statement for {m} commitment(s) (seeded: {}) cannot be built over parameters of capacity {cp}: {e}", case.seed.is_some()),
+            json!({"tier": if ctx.thorough() {"thorough"} else {"quick"}, "seed": ctx.seed, "leg": leg, "case": id, "descr": {"group": GROUP, "bits": n, "aggregation": m, "capacity": cp, "ext": ext}}),
+        );
+        return;
+    }
     let mut prng = FaultRng::new(RngKind::Healthy(rng.next_u64()));
     let Ok(proof) = case.prove(&mut prng) else {
         rep.note("C12: prover refused a valid case (see C01)".into());
@@ -58,7 +66,14 @@ fn cross(ctx: &Ctx, rep: &mut Report, id: usize, n: usize, m: usize, cp: usize, 
         if pp.gi_base_iter().take(common).zip(pv.gi_base_iter()).any(|(a, b)| a != b) || pp.hi_base_iter().take(common).zip(pv.hi_base_iter()).any(|(a, b)| a != b) {
             rep.violation("C12 generators-depend-on-capacity", &format!("vector generators of capacity {cp} and {cv} differ on their common prefix"), replay.clone());
         }
-        let st = case.statement_with(&pv, &case.promises, case.seed);
+        let st = match RangeStatement::init(pv.clone(), case.commitments.clone(), case.promises.clone(), case.seed) {
+            Ok(s) => s,
+            Err(e) => {
+                rep.violation(&format!("C12 statement-refused cap{}m", if cv > m { ">" } else { "=" }), &format!("a statement for {m} commitment(s) (seeded: {}) cannot be built over verifier parameters of capacity {cv}: {e}", case.seed.is_some()), replay.clone());
+                cv *= 2;
+                continue;
+            },
+        };
         for action in ACTIONS {
             rep.eval(&(GROUP, n, m, cp, cv, action_name(action)));
             rep.count("cross_capacity_verifications", 1);
